@@ -199,6 +199,7 @@ package parser
 //@   ensures @span: result.Span.Start == old(s.pos) && result.Span.End == s.pos && old(s.pos) < s.pos
 //@   ensures @kind: result.Kind == TokenString || result.Kind == TokenError
 //@   ensures @closed: result.Kind == TokenString ==> old(s.pos) + 2 <= s.pos && s.s[s.pos-1] == s.s[old(s.pos)] && sbody(s.s, s.s[old(s.pos)], old(s.pos) + 1, s.pos - 1)
+//@   ensures @value: result.Kind == TokenString ==> (nobs(s.s, old(s.pos) + 1, s.pos - 1) && result.Value == s.s[old(s.pos)+1:s.pos-1]) || (hasBS(s.s, old(s.pos) + 1, s.pos - 1) && result.Value == sdecS(s.s, old(s.pos) + 1, s.pos - 1))
 //@   ensures @unterminated: result.Kind == TokenError ==> (s.pos == len(s.s) || s.s[s.pos] == '\n') && (sbody(s.s, s.s[old(s.pos)], old(s.pos) + 1, s.pos) || (sbody(s.s, s.s[old(s.pos)], old(s.pos) + 1, s.pos - 1) && s.s[s.pos-1] == '\\'))
 //@   assigns s.pos, s.last
 //@ loop 1
@@ -207,6 +208,8 @@ package parser
 //@   invariant sbody(s.s, quoteChar, valueStart, s.pos)
 //@   invariant valueBuilder == nil || valueBuilder >= old(alloc())
 //@   invariant forall(r, 0, old(alloc()), out(r) == old(out(r)))
+//@   invariant valueBuilder == nil ==> nobs(s.s, valueStart, s.pos)
+//@   invariant valueBuilder != nil ==> hasBS(s.s, valueStart, s.pos) && out(valueBuilder) == sdecV(s.s, valueStart, s.pos)
 //@   decreases len(s.s) - s.pos
 
 //@ func parser.Scan
@@ -361,8 +364,13 @@ package parser
 
 //@ func parser.joinErrors
 //@   use perr
-//@   trusted flattens joined errors with append(errorList, unwrapper.Unwrap()...); not yet verified
 //@   ensures (result == nil) == allNilL(args, len(args)) && nf(result) == nfL(args, len(args))
+//@ loop 1
+//@   invariant -1 <= rangeindex && rangeindex < len(args)
+//@   invariant (len(errorList) == 0) == allNilL(args, rangeindex + 1)
+//@   invariant nfL(errorList, len(errorList)) == nfL(args, rangeindex + 1)
+//@   invariant noNilL(errorList, len(errorList))
+//@   decreases len(args) - rangeindex
 
 //@ func parser.(TokenKind).String
 //@   trusted generated by stringer; returns some text
@@ -807,3 +815,17 @@ package parser
 //@   invariant forall(r, 0, old(alloc()), fieldheap("scanner", "s")[r] == old(fieldheap("scanner", "s"))[r])
 //@   invariant forall(r, 0, old(alloc()), fieldheap("strings.Builder", "out")[r] == old(fieldheap("strings.Builder", "out"))[r])
 //@   decreases len(p.tokens) + 1 - p.pos
+
+// ---------------------------------------------------------------- parser.go: line:column of error messages
+
+//@ func parser.linecol
+//@   use linecol
+//@   requires 0 <= pos && pos <= len(source)
+//@   ensures @line: line == LCl(source[0:pos], 0, 1, 1)
+//@   ensures @col: col == LCc(source[0:pos], 0, 1, 1)
+//@   ensures @inside: line >= 1 && col >= 1
+//@ loop 1
+//@   invariant 0 <= nextpos && nextpos <= pos && line >= 1 && col >= 1
+//@   invariant LCl(source[0:pos], nextpos, line, col) == LCl(source[0:pos], 0, 1, 1)
+//@   invariant LCc(source[0:pos], nextpos, line, col) == LCc(source[0:pos], 0, 1, 1)
+//@   decreases pos - nextpos
